@@ -201,7 +201,7 @@ class C11:
 # de-chunk rewrite (C12)
 
 FRAMING = (b"content-length", b"transfer-encoding", b"trailer")
-OTHER_CODINGS = [b"gzip", b"deflate", b"foo", b"bar", b"GZIP", b"x-custom", b"compress"]
+OTHER_CODINGS = [b"gzip", b"deflate", b"foo", b"bar", b"GZIP", b"x-custom", b"compress", b"", b"gzip", b"foo"]
 
 
 def tokens_of(values):
@@ -287,7 +287,7 @@ class C12:
             if cls != [str(len(body)).encode()]:
                 fails.append(Failure(group, "content-length", "Content-Length values after de-chunking are %r, body length %d" % (cls, len(body)), [i]))
             tes = [v for k, v in out if k.lower() == b"transfer-encoding"]
-            if tokens_of(tes) != ts or (not ts and tes):
+            if tokens_of(tes) != [t for t in ts if t] or (not [t for t in ts if t] and tes):
                 fails.append(Failure(group, "transfer-encoding", "Transfer-Encoding after de-chunking lists %r, expected %r" % (tokens_of(tes), ts), [i]))
             if any(k.lower() == b"trailer" for k, v in out):
                 fails.append(Failure(group, "trailer-header", "the Trailer header is still present", [i]))
